@@ -108,11 +108,13 @@ PROPS = {
     'C04': {'bundles': ['ledger', 'model'], 'level': 'proof',
             'level_text': 'Callers (no floats): a ghost flag "an evaluated point has not been offered to the model yet" is proved false at every loop back-edge, '
                           'break and return of solve_main and of eight Controller methods (except the deliberate NaN exit). Model: change_point / add_new_point / '
-                          'add_new_sample / save_point / get_final_results keep the NaN-aware best-so-far relations.',
-            'level_note': LEDGER_NOTE + ' ' + MODEL_NOTE + ' Numeric assumptions N1 (distance of xopt to itself is 0, so distance-based replacement never picks the '
-                          'incumbent) and N2 (ratio > 0 implies the new point is better than the incumbent it may overwrite) are stated, not proved. The merge '
-                          'objmin2 < objmin across hard restarts is a float comparison outside domain L.',
-            'not_decided': ['N1, N2 (numeric)', 'init.run_in_parallel=True (known finding D6/D23)']},
+                          'add_new_sample / save_point / get_final_results keep the NaN-aware best-so-far relations. (ii) Call-site obligation at every '
+                          'change_point / geometry_step: the incumbent record is overwritten only on the ratio > 0 path or after it was offered to the saved slot; every other '
+                          'replacement targets a new slot (initialisers, growing) or a slot chosen with skip_kopt (contract of choose_point_to_replace).',
+            'level_note': LEDGER_NOTE + ' ' + MODEL_NOTE + ' Numeric assumptions, stated at their call sites and never discharged: A-N1 (the point furthest from xopt is not '
+                          'xopt: check_and_fix_geometry), A-N2 (argsort yields distinct slots with the incumbent first: soft_restart, move_furthest_points[_momentum]), '
+                          'N-ratio (ratio > 0 means the trial point improves on the incumbent). The merge objmin2 < objmin across hard restarts is a float comparison outside domain L.',
+            'not_decided': ['A-N1, A-N2, N-ratio (numeric)', 'init.run_in_parallel=True (known finding D6/D23)']},
     'C08': {'bundles': ['ledger', 'model', 'vecs'], 'level': 'proof',
             'level_text': 'Partial claim: (i) budget/counter proofs hold for arbitrary returned values (residuals are havoc in domain L); (ii) NaN never displaces a '
                           'finite stored/saved value in Model (exact NaN semantics); (iii) the NaN-at-trial-step exit is flagged EXIT_EVAL_ERROR; (v) no try body '
